@@ -21,13 +21,13 @@ PROFILES = {
     "C01": dict(mc=[("N1zero", 2, 2, 3)], mc_thorough=[("N1zero", 2, 2, 1), ("F2fix", 2, 2, 2), ("N1fix", 2, 2, 3), ("F2zero", 2, 3, 1)],
                 gen=dict(nops=12), n=(240, 4000), lazy=0.4),
     "C02": dict(mc=[("F2fix", 2, 2, 1)], mc_thorough=[("F2fix", 2, 2, 2), ("F2tier", 2, 2, 1), ("N1fix", 2, 2, 3), ("F2unit", 2, 3, 1), ("FIfix", 2, 2, 1)],
-                gen=dict(nops=12, trees=["F2", "F3", "N1", "S2", "N2", "FI3", "FI4", "FI4"]), n=(240, 4000), lazy=0.2),
+                gen=dict(nops=12, trees=["F2", "F3", "N1", "S2", "N2", "FI3", "FI4", "FI4", "MC3", "MCN"], zerodip=True), n=(240, 4000), lazy=0.2),
     "C03": dict(mc=[("F2zero", 2, 2, 1)], mc_thorough=[("F2zero", 2, 3, 1), ("F2zero", 3, 2, 1), ("F2fix", 2, 2, 2), ("N1zero", 2, 2, 3)],
-                gen=dict(nops=14, p_flow=0.45), n=(240, 4000), lazy=0.0),
+                gen=dict(nops=14, p_flow=0.45, trees=["F2", "F3", "N1", "S2", "N2", "MC3", "MCN", "MC3"]), n=(240, 4000), lazy=0.0),
     "C07": dict(mc=[("F2tier", 2, 2, 1)], mc_thorough=[("F2tier", 2, 2, 2), ("F2unit", 2, 2, 1), ("N1fix", 2, 2, 3), ("F2fix", 2, 3, 1)],
-                gen=dict(nops=14, p_custom=0.3, same_sec=True), n=(240, 4000), lazy=0.2),
+                gen=dict(nops=14, p_custom=0.3, same_sec=True, penny=True, zero_outlay=0.3, daytrade=0.1), n=(240, 4000), lazy=0.2),
     "C08": dict(mc=[("F2unit", 2, 2, 1)], mc_thorough=[("F2unit", 2, 2, 2), ("F2zero", 3, 2, 1), ("N1zero", 2, 2, 3), ("F2fix", 2, 3, 1)],
-                gen=dict(nops=14, p_redundant=0.4, p_unsettled=0.15), n=(240, 4000), lazy=0.3),
+                gen=dict(nops=14, p_redundant=0.4, p_unsettled=0.15, same_sec=True, p_custom=0.2, daytrade=0.2), n=(240, 4000), lazy=0.3),
     "C17": dict(mc=[("FIzero", 2, 2, 1)], mc_thorough=[("FIzero", 2, 3, 1), ("FIfix", 2, 2, 2), ("FIzero", 3, 2, 1)],
                 gen=dict(nops=14, trees=["FI3", "FI4", "FIN"], fund_subs=False), n=(240, 4000), lazy=0.0),
     "C16": dict(mc=[("F2zero", 2, 2, 2)], mc_thorough=[("F2zero", 2, 3, 2), ("N1zero", 2, 2, 2), ("F2fix", 2, 2, 2), ("F2zero", 3, 2, 2)],
@@ -123,7 +123,7 @@ def _run_one(args):
 def _run_one_fast(args):
     seed, idx, kw, lazy_p = args
     rng = random.Random((seed * 1000003 + idx) & 0xFFFFFFFF)
-    ckw = {k: v for k, v in kw.items() if k in ("tree", "T", "comm", "spread", "integer", "late", "crash", "D", "delist")}
+    ckw = {k: v for k, v in kw.items() if k in ("tree", "T", "comm", "spread", "integer", "late", "crash", "D", "delist", "zerodip", "penny")}
     gkw = {k: v for k, v in kw.items() if k in treegen.GEN_KEYS}
     if "trees" in kw:
         ckw["tree"] = rng.choice(kw["trees"])
@@ -143,7 +143,7 @@ def _run_pair(args):
     """C08: base history + variant with redundant updates/reads inserted."""
     seed, idx, kw, lazy_p = args
     rng = random.Random((seed * 1000003 + idx) & 0xFFFFFFFF)
-    ckw = {k: v for k, v in kw.items() if k in ("tree", "T", "comm", "spread", "integer", "late", "crash", "D")}
+    ckw = {k: v for k, v in kw.items() if k in ("tree", "T", "comm", "spread", "integer", "late", "crash", "D", "zerodip", "penny")}
     gkw = {k: v for k, v in kw.items() if k in treegen.GEN_KEYS}
     gkw["p_unsettled"] = 0.0
     C = treegen.make_C(rng, **ckw)
